@@ -286,14 +286,15 @@ Definition csr_from_dia (a : dia) : csr :=
              (a_diags a)))))
         (seq 0 (a_nr a)) |}.
 
-(* ---- kernels whose faithful model contradicts the property ------------ *)
-(* properties.pyx::isequal_dia after clean_dia: walk of the two sorted
-   offset lists; the `while` ends when either side is exhausted and the
-   function returns True *)
+(* ---- predicates and tidy-up ------------------------------------------- *)
+(* properties.pyx::isequal_dia after clean_dia (1930127): walk of the two
+   sorted offset lists; when either side has no diagonal left, the two tail
+   loops require every remaining diagonal of the other side to be zero *)
 Definition all0 (l : list C) : bool := forallb is0 l.
+Definition rest0 (A : list (Z * list C)) : bool := forallb (fun d => all0 (snd d)) A.
 Fixpoint isequal_dia_walk (fuel : nat) (A B : list (Z * list C)) : bool :=
   match fuel with
-  | O => true
+  | O => rest0 A && rest0 B
   | S f =>
     match A, B with
     | (oa, da) :: ta, (ob, db) :: tb =>
@@ -302,30 +303,60 @@ Fixpoint isequal_dia_walk (fuel : nat) (A B : list (Z * list C)) : bool :=
           then isequal_dia_walk f ta tb else false
         else if (oa <=? ob)%Z then (if all0 da then isequal_dia_walk f ta B else false)
         else (if all0 db then isequal_dia_walk f A tb else false)
-    | _, _ => true
+    | _, _ => rest0 A && rest0 B
     end
   end.
 Definition isequal_dia (a b : dia) : bool :=
   if negb ((a_nr a =? a_nr b) && (a_nc a =? a_nc b)) then false
   else isequal_dia_walk (length (a_diags a) + length (a_diags b)) (a_diags a) (a_diags b).
 
-(* properties.pyx::isdiag_csr: structure only *)
+(* the rule before 1930127: the walk stopped, and answered True, as soon as
+   one operand had no diagonal left *)
+Fixpoint old_isequal_dia_walk (fuel : nat) (A B : list (Z * list C)) : bool :=
+  match fuel with
+  | O => true
+  | S f =>
+    match A, B with
+    | (oa, da) :: ta, (ob, db) :: tb =>
+        if (oa =? ob)%Z then
+          if forallb (fun p => ceqb (fst p) (snd p)) (combine da db)
+          then old_isequal_dia_walk f ta tb else false
+        else if (oa <=? ob)%Z then (if all0 da then old_isequal_dia_walk f ta B else false)
+        else (if all0 db then old_isequal_dia_walk f A tb else false)
+    | _, _ => true
+    end
+  end.
+
+(* properties.pyx::isdiag_csr (96e4de2): every stored entry off the diagonal
+   must hold the value 0 *)
 Fixpoint isdiag_rows (r : nat) (rows : list crow) : bool :=
   match rows with
   | [] => true
   | row :: t =>
-      match row with
-      | [] => isdiag_rows (S r) t
-      | [p] => if fst p =? r then isdiag_rows (S r) t else false
-      | _ => false
-      end
+      forallb (fun p => (fst p =? r) || is0 (snd p)) row && isdiag_rows (S r) t
   end.
 Definition isdiag_csr (m : csr) : bool := isdiag_rows 0 (s_rows m).
 
-(* tidyup.pyx::tidyup_dense(matrix, tol, inplace): the loop stores into
-   `matrix`, the function returns `out` (a copy made before the loop when
-   inplace is false).  Result: (returned matrix, argument afterwards) *)
+(* the rule before 96e4de2: structure only *)
+Fixpoint old_isdiag_rows (r : nat) (rows : list crow) : bool :=
+  match rows with
+  | [] => true
+  | row :: t =>
+      match row with
+      | [] => old_isdiag_rows (S r) t
+      | [p] => if fst p =? r then old_isdiag_rows (S r) t else false
+      | _ => false
+      end
+  end.
+
+(* tidyup.pyx::tidyup_dense(matrix, tol, inplace) (e806789): the loop reads
+   and stores into `out`, which is the argument itself when inplace and a
+   copy otherwise.  Result: (returned matrix, argument afterwards) *)
 Definition tidyup_dense (d : dense) (inplace : bool) : dense * dense :=
+  let tidied := map_dense tidy d in
+  if inplace then (tidied, tidied) else (tidied, d).
+(* before e806789 the loop stored into the argument and returned the copy *)
+Definition old_tidyup_dense (d : dense) (inplace : bool) : dense * dense :=
   let tidied := map_dense tidy d in
   if inplace then (tidied, tidied) else (d, tidied).
 Definition tidyup_csr (m : csr) (inplace : bool) : csr * csr :=
@@ -449,7 +480,10 @@ Definition G_dense_from_dia := dense_from_dia G g0.
 Definition G_dia_from_dense_full := dia_from_dense_full G g0.
 Definition G_csr_from_dia := csr_from_dia G g0 gadd gis0.
 Definition G_isequal_dia := isequal_dia G gis0 geqb.
-Definition G_isdiag_csr := isdiag_csr G.
+Definition G_isdiag_csr := isdiag_csr G gis0.
+Definition G_old_isdiag_csr (m : csr G) := old_isdiag_rows G 0 (s_rows G m).
+Definition G_old_isequal_dia_walk := old_isequal_dia_walk G gis0 geqb.
+Definition G_old_tidyup_dense (tol : Z) := old_tidyup_dense G (gtidy tol).
 Definition G_tidyup_dense (tol : Z) := tidyup_dense G (gtidy tol).
 Definition G_tidyup_csr (tol : Z) := tidyup_csr G gis0 (gtidy tol).
 Definition vC (m : Gcsr) := (s_nr G m, s_nc G m, indptr_of G m, indices_of G m, data_of G m).
